@@ -1,16 +1,18 @@
 #!/bin/bash
 # Runs the repository's own suite with the verif guard OFF and compares against the stable list
-# in /root/.vp/BASELINE.json. A stable test that fails in the full (concurrent) run is re-run
+# in /root/.vp/BASELINE.json (REPO_DIR=<worktree> runs it somewhere else than /repo). A stable test that fails in the full (concurrent) run is re-run
 # alone up to 3 times before it counts as a regression (the suite shares ./data between tests).
 set -u
-cd /repo || exit 2
+REPO_DIR="${REPO_DIR:-/repo}"
+export REPO_DIR
+cd "$REPO_DIR" || exit 2
 unset RUSTFLAGS
 export CARGO_NET_OFFLINE=true
 OUT=$(mktemp -d)
 cargo nextest run --workspace --no-fail-fast --tool-config-file pb:/w/lib/nextest.toml --profile pb --test-threads 8 --offline > "$OUT/log" 2>&1
-J=/repo/target/nextest/pb/junit.xml
+J="$REPO_DIR/target/nextest/pb/junit.xml"
 python3 - "$J" "$OUT" <<'PY'
-import json,sys,xml.etree.ElementTree as ET,subprocess
+import json,os,sys,xml.etree.ElementTree as ET,subprocess
 j,out=sys.argv[1],sys.argv[2]
 base=json.load(open('/root/.vp/BASELINE.json'))
 stable=set(base['stable_pass'])
@@ -27,7 +29,7 @@ for f in failed:
     crate,_,test=f.partition('::')
     ok=False
     for k in range(3):
-        r=subprocess.run(['cargo','test','--offline','-p',crate,'--lib','--',test,'--exact'],cwd='/repo',capture_output=True,text=True)
+        r=subprocess.run(['cargo','test','--offline','-p',crate,'--lib','--',test,'--exact'],cwd=os.environ['REPO_DIR'],capture_output=True,text=True)
         if r.returncode==0 and 'test result: ok. 1 passed' in r.stdout:
             ok=True;break
     print("  re-run alone:",f,"->","ok" if ok else "FAIL")
